@@ -483,10 +483,14 @@ def c02_filter(v, job, res):
     are handled like the reference, so the two calls disagree."""
     if not v["rule"].startswith("spec:"):
         return False
-    if v.get("eof_paths") != [True]:
-        return False
     cls = v["rule"].split(":")[1]
     d = v["detail"]
+    if cls == "field" and ("stored before the reference has delimited it" in d or "stored twice" in d):
+        # a start-line field shown to the caller before its final value is known: what a caller
+        # reads alongside Partial is not what the final result will have
+        return True
+    if v.get("eof_paths") != [True]:
+        return False
     if cls == "field":
         return True
     if cls in ("offset", "errkind"):
